@@ -76,6 +76,7 @@ def judge(ex, ref, case):
             reported[cur].append(i)
     state = "idle"
     monitored = False
+    monitor_pending = False
     run_open = 0
     susp = 0
     problems = []
@@ -96,9 +97,11 @@ def judge(ex, ref, case):
             run_open -= 1
             monitored = False
         elif e[0] == "dev" and e[1] == "sig" and e[2] == "subscribe":
-            pass
+            if monitor_pending:
+                monitored, monitor_pending = True, False
         elif e[0] == "msg" and e[1].command == "monitor":
-            monitored = True
+            # monitored from the moment the engine subscribes (a 'monitor' interrupted in mid-flight is run again later)
+            monitor_pending = True
         elif e[0] == "msg" and e[1].command == "unmonitor":
             monitored = False
         elif e[0] == "msg" and e[1].command == "_start_suspender":
